@@ -34,6 +34,7 @@ import SF.Proofs.UnfGenericTop
 import SF.Gotype.Menagerie
 import SF.Proofs.UnfConsTop
 import SF.Proofs.UnfStructValTop
+import SF.Proofs.UnfSVContTop
 namespace SF.Props.C13
 open SF SF.Unf
 
@@ -274,3 +275,53 @@ example : FM SF.UnfProofs.StructVal.noTbl SF.UnfProofs.StructVal.tDemo SF.UnfPro
   ⟨SF.UnfProofs.StructVal.demoFM, by decide +kernel⟩
 
 end SF.PropsStruct.C13
+
+
+/-! ## C13, struct targets: fields of type `*T` and `[]T` (T of primitive kind, named or not)
+
+The store lemma `FieldOK` (SF/Proofs/UnfSVCore.lean) is what `object_into_struct_compiled` asks of every entry
+of the field table (`FM`); with these two instances the typed-assignment clause covers struct fields of
+primitive, `interface{}`, nested / inlined struct, POINTER-to-primitive and SLICE-of-primitive type.
+Proof files SF/Proofs/UnfSV{Ptr,Arr,ContTop}.lean.  `map[string]T` fields: not proved — as stated the store
+lemma is false of the MIRROR's untyped value universe (an old map value may carry a foreign element-type tag,
+which `norm` sees and Go cannot express; evaluated counterexample in UnfSVContTop.lean): correspondence + oracle. -/
+namespace SF.PropsStructCont.C13
+open SF SF.Unf SF.Unf.Spec SF.Unf.SV
+open SF.UnfProofs.StructVal (startCtx Shaped FM noTbl tCont contFields contSF contOld contDoc contFM)
+open SF.Unf.Str (hasTyB_sound)
+
+/-- `*T` fields, `T` of primitive kind `k` (named or not; not `interface{}`): `null` ↦ the nil pointer; a scalar the
+specification assigns to a `T` ↦ a FRESH cell (`cells'` of `FieldOK` = one more cell) holding the converted scalar,
+the field holds the pointer — whatever it held before (both readings of the specification agree: a primitive
+pointee is replaced as a whole). `hnb` as in `fieldOK_prim`. -/
+theorem field_ptr_prim (tbl : TypeTable) (ft e : GoType) (k : PK) (hu : ft.un tbl = .ptr e)
+    (hk : PK.ofExact? (e.un tbl) = some k) (hki : k ≠ .ifc)
+    (hnb : ∀ nk, e.un tbl = .int nk → normKind nk = nk) : FieldOK tbl (.ptr e (.lifted (.prim k))) ft :=
+  SF.UnfProofs.StructVal.fieldOK_ptr tbl ft e k hu hk hki hnb
+
+/-- `[]T` fields, `T` of primitive kind `k` (named or not; not `interface{}`): an array of scalars — ANY announced
+length not above the count (`-1`, `0`, … the count: `UTree.wf`), ANY announced element type (the typed arrays of
+the ext visitors are arrays of scalars event by event), strings by value or by reference — that the specification
+assigns element by element: the field then holds EXACTLY the stream's elements, converted, for ANY old slice (nil,
+shorter, longer: the rest of the old elements stays hidden in the capacity, which `norm` drops). -/
+theorem field_slice_prim (tbl : TypeTable) (ft e : GoType) (k : PK) (hu : ft.un tbl = .slice e)
+    (hk : PK.ofType? tbl e = some k) (hki : k ≠ .ifc) (hnb : ∀ nk, e.un tbl = .int nk → normKind nk = nk) :
+    FieldOK tbl (.lifted (.arr k)) ft :=
+  SF.UnfProofs.StructVal.fieldOK_arr tbl ft e k hu hk hki hnb
+
+/-- non-vacuity: `struct { P *int; Xs []int32; Q *MyStr "q"; Ys []string }` with old values, a document assigning
+all four (announced and unknown lengths, by-reference key and string, `null` into a pointer, an unknown member):
+every hypothesis of `object_into_struct_compiled` holds, and the mirror run ends idle with the target as specified
+(two cells allocated, the fourth old element of `Xs` hidden in the capacity) -/
+example : SF.UnfProofs.StructVal.FM noTbl tCont contFields contSF ∧ Shaped noTbl tCont contOld ∧
+    (match run typeFuel (UTree.obj 6 0 contDoc).events (startCtx newUnfolder noTbl [] contFields contOld) with
+     | .ok _ c₁ =>
+       c₁.depths == [0, 0, 0, 0, 0, 0] && c₁.cells.size == 2 &&
+       (match c₁.target with
+        | .struct [.ptrNil _, .slice _ [.int .i32 1, .int .i32 300, .int .i32 (Int.negSucc 1)] [.int .i32 9],
+                   .ptr _ (.str [0x73]), .slice _ [.str [0x61], .str [0x62]] []] => true
+        | _ => false)
+     | _ => false) = true :=
+  ⟨contFM, hasTyB_sound _ _ _ (by decide +kernel), by decide +kernel⟩
+
+end SF.PropsStructCont.C13
